@@ -32,9 +32,13 @@ func TestVerifC17(t *testing.T) {
 	}
 	cl := bootCluster(t, nData, dir, lf, df...)
 	defer cl.stop()
-	cl.replicas = uint32(verifh.Seed() % 2)
+	// With replicas the recorded partial-aggregate finding (a group spanning shards is de-duplicated by shard id)
+	// makes group-by aggregates unreliable, and mismatches of such queries are attributed to it. So that this
+	// attribution never hides anything else in the run made on every change, the default quick run (seed 1) has
+	// no replicas; even seeds and the default thorough run exercise the replica path.
+	cl.replicas = uint32((verifh.Seed() + 1) % 2)
 	if verifh.Thorough() {
-		cl.replicas = 1
+		cl.replicas = uint32(verifh.Seed() % 2)
 	}
 	sa := boot(t, lf...)
 	defer sa.stop()
